@@ -5,7 +5,7 @@ import vlib
 from vlib import log
 
 HS_INV = ["C20_AcceptNeedsValidKey", "C20_AcceptNeedsValidPow", "C20_AcceptRegisters", "C20_RejectKeepsKeys", "C20_RejectLowersRep"]
-HS_SIDE = [("dev_cooldownskip", "C20_AcceptNeedsValidPow"), ("dev_badkeynopenalty", "C20_RejectLowersRep"),
+HS_SIDE = [("dev_cooldownskip", "C20_AcceptNeedsValidPow"), ("dev_badkeynopenalty", "C20_RejectLowersRep"), ("dev_oldversion", "C20_AcceptNeedsValidPow"),
            ("reach_otherkeyincooldown", "Reach_OtherKeyInCooldown"), ("reach_badnonceincooldown", "Reach_BadNonceInCooldown"),
            ("reach_repeatincooldown", "Reach_RepeatInCooldown"), ("reach_atcooldownend", "Reach_AtCooldownEnd"),
            ("reach_rejectatfloor", "Reach_RejectAtFloor"), ("reach_badkeywithsession", "Reach_BadKeyWithSession")]
@@ -93,7 +93,9 @@ def hs_scripts(hists, cooldown=2, tick_ms=1000):
                 lines.append("adv ms=%d" % (a["d"] * tick_ms))
             else:
                 k = 0 if a["pub"] == 99 else a["pub"]
-                lines.append("hs p=%d k=%d nonce=%s" % (a["p"], k, "solved" if a["pow"] else "bad"))
+                # the requested protocol version is the attacker's choice too (the model's "old": below the version that introduced announce PoW)
+                ver = " ver=%d" % (1 + (a["p"] + k + len(lines)) % 2) if a.get("ver") == "old" else ""
+                lines.append("hs p=%d k=%d nonce=%s%s" % (a["p"], k, "solved" if a["pow"] else "bad", ver))
         out.append(lines)
     return out
 
@@ -119,7 +121,7 @@ def hs_random(rng, n):
                 p = rng.randint(1, npeers)
                 k = rng.choice([1, 1, 2, 2, 0])
                 nonce = rng.choice(["solved", "solved", "solved", "bad", "bad", "alt", "other", "rand"]) if k else rng.choice(["solved", "bad", "rand"])
-                lines.append("hs p=%d k=%d%s nonce=%s" % (p, k, "" if k else " bad=%d" % rng.randrange(6), nonce))
+                lines.append("hs p=%d k=%d%s nonce=%s%s" % (p, k, "" if k else " bad=%d" % rng.randrange(6), nonce, rng.choice(["", "", "", " ver=1", " ver=2", " ver=3", " ver=0", " ver=255"])))
                 marks.append(now)
             else:
                 # land exactly on / next to the end of a cooldown that started at an earlier handshake
@@ -163,7 +165,10 @@ def run_c20(chk):
     chk.add_model("Handshake design=>contract (2 claimed peers x (2 valid keys + invalid key) x powOK, cooldown 2, now<=4, %s)" % main_cfg, r, note)
     if rfull:
         chk.add_model("same, <= 12 actions, reputation scale -6..2 (MC_Handshake_full.cfg)", rfull, note)
-    scripts = hs_scripts(hists)
+    # handshakes that request an old protocol version (the PoW nonce is part of the handshake payload in every version)
+    rv, hists_v = vlib.dump_hists("Handshake", "MC_Handshake_versions.cfg", workers=8, timeout=280)
+    chk.add_model("Handshake design=>contract with requested versions {current, old}, <= 4 actions", rv, note)
+    scripts = hs_scripts(hists) + hs_scripts([h for h in hists_v if any(a.get("ver") == "old" for a in h)])
     log("[gen] %d TLC state-cover sequences" % len(scripts))
     cover = rng.sample(scripts, min(len(scripts), 8000 if thorough else 1500))
     ext = [lines + [a, b] for lines in rng.sample(scripts, min(len(scripts), 400 if thorough else 50)) for a in HS_ACTS for b in rng.sample(HS_ACTS, 2)]
